@@ -2253,6 +2253,12 @@ class Interp:
                 outs.append(Outcome("raise", p, v))
                 continue
             concrete = None
+            if v[0] in ("tuple", "list") and any(x[0] == "star" for x in v[1]) and all(x[0] != "star" or (x[1][0] in ("tuple", "list") and not any(y[0] == "star" for y in x[1][1])) for x in v[1]):
+                # [a, *<a concrete list>]: the elements are known
+                flat_ = []
+                for x in v[1]:
+                    flat_.extend(x[1][1] if x[0] == "star" else [x])
+                v = (v[0], tuple(flat_))
             if v[0] in ("tuple", "list") and not any(x[0] == "star" for x in v[1]):
                 concrete = list(v[1])
             elif v[0] == "const" and isinstance(v[1], (tuple, list)):
